@@ -120,9 +120,9 @@ impl Knobs {
 
 const FIELDS: [&str; 5] = ["a", "b", "c", "d", "e"];
 const NEST_FIELDS: [&str; 3] = ["n", "m", "objs"];
-const WORDS: [&str; 20] = [
+const WORDS: [&str; 22] = [
     "foo", "bar", "baz", "fo", "o", "Foo", "BAR", "foobar", "x", "1", "12", "true", "null", "a.b",
-    "f*o", "in", "is", "ob", "ar", "barbaz",
+    "f*o", "in", "is", "ob", "ar", "barbaz", "0", "-0",
 ];
 const QUOTING_WORDS: [&str; 24] = [
     "~", "*", "'", "\"", "yes", "1.0", "0x10", " lead", "trail ", "a: b", "a #b", "line1\nline2",
@@ -1257,6 +1257,8 @@ fn numeric_needle_values(core: &str, out: &mut Vec<MVal>) {
         }
         out.push(MVal::float(n as f64));
         out.push(MVal::float(n as f64 + 0.5));
+        // the negative twin: for 0 this is -0.0, equal to 0.0 as a number and "-0" as a string
+        out.push(MVal::float(-(n as f64)));
         for t in [format!("{}5", core), format!("5{}", core), format!("{}{}", core, core)] {
             if let Ok(m) = t.parse::<i64>() {
                 out.push(MVal::Int(m));
